@@ -426,6 +426,8 @@ def direct_calls(draw, version):
         ['filter', S, ['or', ['vcmp', 'eq', c('count', inner), ['pos']], ['vcmp', 'eq', ['pos'], ['last']]]],
         ['filter', S, ['seq', ['filter', c('count', inner), ['bool', False]], ['pos']]],
     ]
+    if version == '31':
+        out += stored_sequence_forms(draw, S, T, a, ia)
     # same-name shadowing: the outer $x / $y must be visible again after an inner binder of the same name
     X, Y = ['var', 'x'], ['var', 'y']
     inS = lambda v: c('exists', c('index-of', S, v))      # noqa: E731  true for every item of S except NaN
@@ -482,6 +484,38 @@ def direct_calls(draw, version):
                 ['map', S, ['seq', ['ctx'], ['filter', inner, ['last']], ['ctx'], ['pos']]],
                 ['map', ['map', S, ['seq', ['ctx'], ['pos']]], ['seq', ['pos'], ['last']]]]
     return out
+
+
+def stored_sequence_forms(draw, S, T, a, ia):
+    """sequences handed out by a map entry / array member (the stored list must never be modified by the consumer):
+    the lookup is an operand of comma / insert-before / reverse / subsequence ... and is used again afterwards"""
+    c = lambda name, *args: ['call', name, list(args)]     # noqa: E731
+    M, A = ['var', 'm'], ['var', 'a']
+    kind = draw(_upto(5))
+    LS = [['dyn', M, [['str', 'k']]], ['lookup', M, 'k'], c('map:get', M, ['str', 'k']),
+          ['dyn', A, [['int', 1]]], ['lookup', A, 1], c('array:get', A, ['int', 1])][kind]
+    LT = [['dyn', M, [['str', 'j']]], ['lookup', M, 'j'], c('map:get', M, ['str', 'j']),
+          ['dyn', A, [['int', 2]]], ['lookup', A, 2], c('array:get', A, ['int', 2])][kind]
+    binds = [['m', ['mapc', [[['str', 'k'], S], [['str', 'j'], T]]]]] if kind < 3 else [['a', ['array', [S, T]]]]
+    I = ['var', 'i']
+    three = ['seq', ['int', 1], ['int', 2], ['int', 3]]
+    forms = [
+        ['seq', ['seq', LS, ['int', 3]], c('count', LS), LS],
+        ['for', [['i', three]], c('count', ['seq', LS, I])],
+        ['for', [['i', three]], ['seq', LS, I]],                                   # ONE comma expression evaluated 3 times
+        ['seq', c('reverse', ['seq', LS, LT]), LS, LT],
+        ['seq', c('count', c('insert-before', LS, ia, LT)), LS, c('count', LT)],
+        ['seq', c('subsequence', ['seq', LS, LT, ['int', 0]], a), c('count', LS)],
+        ['seq', ['every', [['x', ['seq', LS, LT]]], c('exists', ['var', 'x'])], c('count', ['seq', LS, LS])],
+        ['for', [['i', ['seq', ['int', 1], ['int', 2]]]], ['seq', c('count', ['seq', ['seq', LS, I], LT]), c('count', LS)]],
+        ['seq', ['map', ['seq', ['int', 1], ['int', 2]], c('count', ['seq', LS, ['ctx'], LT])], c('count', LS)],
+        ['seq', ['filter', ['seq', LS, LT], ['last']], c('count', ['seq', LT, LS]), ['filter', LS, ['int', 1]]],
+        ['seq', c('count', ['for', [['x', ['seq', LS, ['int', 9]]]], ['seq', ['var', 'x'], LS]]), c('count', LS)],
+        ['seq', c('string-join', ['seq', LS, ['str', '|'], LS], ['str', ',']), c('count', LS)],
+        ['let', [['s', LS]], ['seq', c('count', ['seq', ['var', 's'], ['var', 's'], ['int', 1]]), c('count', ['var', 's']), c('count', LS)]],
+        ['seq', c('count', c('remove', ['seq', LS, LT], ia)), c('count', ['seq', LS, LT])],
+    ]
+    return [['let', binds, f] for f in forms]
 
 
 @st.composite
